@@ -2,10 +2,11 @@ package sim
 
 import (
 	"fmt"
+	"strconv"
 	"time"
 
 	"github.com/anishathalye/porcupine"
-	"github.com/rulego/streamsql/utils/simrt"
+	"verif.local/simrt"
 )
 
 // C16 — stream-table JOIN enriches each row from the table state at processing time
@@ -21,14 +22,15 @@ func init() { register(c16{}) }
 func (c16) ID() string { return "C16" }
 
 // key components of one scalar "family" per position; 1 and 1.0 are the same key, '1' is not
-var c16Keys = []any{1, 1.0, 2, 2.5, "1", "a", "2"}
+// (incl. neighbouring integers beyond 2^24 and 2^31: a key encoding that loses precision merges them)
+var c16Keys = []any{1, 1.0, 2, 2.5, "1", "a", "2", 16777216, 16777217, 1234567890, 1234567891, 2147483648, 2147483649}
 
 func normKey(v any) string {
 	if v == nil {
 		return "<nil>"
 	}
 	if f, ok := toFloat(v); ok {
-		return fmt.Sprintf("n:%g", f)
+		return "n:" + strconv.FormatFloat(f, 'f', -1, 64)
 	}
 	return fmt.Sprintf("s:%v", v)
 }
